@@ -145,7 +145,14 @@ class Gen:
     # ---- patterns ---------------------------------------------------------------------
     def binding(self, ex, key, default):
         if self.B.sym_names:
-            return sym_ident(ex, key)
+            idn = sym_ident(ex, key)
+            # legal Rust: the bindings of one parameter list are pairwise distinct
+            seen = ex.notes.setdefault('bindings', {})
+            if key not in seen:
+                for other in seen.values():
+                    ex.assume(idn.name != other)
+                seen[key] = idn.name
+            return idn
         return self.A.ident(default)
 
     def pattern(self, key, default, depth=0):
@@ -234,10 +241,40 @@ class Gen:
         labels.append("'a: 'b")
         return choice(key, alts, labels)
 
+    def generic_param_of_kind(self, key, j, kind):
+        A = self.A
+        nm = ['D', 'E', 'F'][j]
+        if kind == 'T':
+            return A.enum('GenericParam', 'Type', A.node(
+                'TypeParam', ident=A.ident(nm), colon_token=Some(Tok('Colon')),
+                bounds=sym_punct(key + '.bounds', self.B.max_deps_bounds, lambda ex2, k, jj: self.bound(f'G{j}{jj}'), 'Plus'),
+                eq_token=NONE(), default=NONE()))
+        if kind == 'L':
+            return A.generic_lifetime_param(A.lifetime('a' if j == 0 else 'b'))
+        return A.generic_const_param(A.ident('N' + str(j)), self.opaque_type('usize'))
+
+    def generic_params(self, key, maxlen):
+        """all legal kind sequences up to maxlen (lifetimes must precede type and const parameters)"""
+        import itertools
+        seqs = [()]
+        for n in range(1, maxlen + 1):
+            for s_ in itertools.product('LTC', repeat=n):
+                seen_non_l = False
+                ok = True
+                for ch in s_:
+                    if ch != 'L':
+                        seen_non_l = True
+                    elif seen_non_l:
+                        ok = False
+                if ok:
+                    seqs.append(s_)
+        return Sym(key, len(seqs), lambda ex, i: Punct([self.generic_param_of_kind(f'{key}[{j}]', j, k) for j, k in enumerate(seqs[i])], 'Comma'),
+                   ['len=0' if not s_ else ''.join(s_) for s_ in seqs])
+
     def generics(self, key):
         A = self.A
         B = self.B
-        params = sym_punct(key + '.params', B.max_generics, lambda ex, k, j: self.generic_param(k, j))
+        params = self.generic_params(key + '.params', B.max_generics)
         where = sym_opt(key + '.where', lambda ex: A.node('WhereClause', predicates=sym_punct(
             key + '.preds', B.max_where, lambda ex2, k, j: self.where_pred(k, j), minlen=0)))
         return A.node('Generics', lt_token=Some(Tok('Lt')), params=params, gt_token=Some(Tok('Gt')), where_clause=where)
